@@ -53,7 +53,7 @@ PROPS["C14"] = dict(
 
 PROPS["C15"] = dict(
     harness="p_scan",
-    phases=dict(quick=[enum(8), rc(8, 1500)], thorough=[enum(16), rc(16, 20000)]),
+    phases=dict(quick=[enum(8), rc(8, 12000)], thorough=[enum(16), rc(16, 150000)]),
     rule=("cases: every include graph over <=3 (quick) / <=4 (thorough) files with <=2 include directives per file, targets "
           "= any file, itself, an absent name or no quoted name, main present/absent; plus random graphs up to 8 files x 4 "
           "directives. Oracle: reference recursive include resolver with an active stack: token stream, multiset of "
@@ -313,7 +313,7 @@ PROPS["C17"] = dict(
 
 PROPS["C13"] = dict(
     harness="p_lr",
-    phases=dict(quick=[rc(8, 500, env={"VERIF_C13_LEN": "5"}), rc(8, 1500, flavour="fast", seed_offset=100, env={"VERIF_C13_LEN": "5"})],
+    phases=dict(quick=[rc(8, 2500, env={"VERIF_C13_LEN": "5"}), rc(8, 9000, flavour="fast", seed_offset=100, env={"VERIF_C13_LEN": "5"})],
                 thorough=[rc(16, 4000, env={"VERIF_C13_LEN": "6"}), rc(16, 30000, flavour="fast", seed_offset=100, env={"VERIF_C13_LEN": "6"})]),
     rule=("cases: random grammars with 1-4 non-terminals, 1-3 terminals (+ end marker), 1-7 productions with right sides of length 0-3 "
           "(epsilon rules, explicit epsilon symbols, left/right recursion, unproductive and unreachable symbols), full or prefix mode; per "
@@ -359,9 +359,12 @@ PROPS["C09"] = dict(
 
 PROPS["C10"] = dict(
     harness="p_macro",
-    phases=dict(quick=[rc(4, 250), rc(4, 1000, flavour="fast", seed_offset=100), rc(6, 1500, harness="p_sem", flavour="fast", seed_offset=200)],
-                thorough=[rc(8, 6000), rc(8, 40000, flavour="fast", seed_offset=100), rc(8, 60000, harness="p_sem", flavour="fast", seed_offset=200)]),
-    rule=("cases: (token level, p_macro) macro sets whose bodies contain #n, streams with repeated and nested pattern instances, half of them "
+    phases=dict(quick=[dict(kind="enum", shards=6, flavour="fast"), rc(3, 150), rc(3, 700, flavour="fast", seed_offset=100), rc(4, 1200, harness="p_sem", flavour="fast", seed_offset=200)],
+                thorough=[dict(kind="enum", shards=8, flavour="fast"), rc(8, 6000), rc(8, 40000, flavour="fast", seed_offset=100), rc(8, 60000, harness="p_sem", flavour="fast", seed_offset=200)]),
+    rule=("cases: (long runs, p_macro) single apply_macros runs of 40..300 (thorough: ..700) expansion steps of two temporary-using macros, "
+          "plain and nested: the expanded stream must contain exactly one distinct non-user-writable name per temporary per step, each "
+          "written exactly twice - so steps that are hundreds of passes apart still get different names; all short streams of the C09 "
+          "families with the naming invariants. (token level, p_macro) macro sets whose bodies contain #n, streams with repeated and nested pattern instances, half of them "
           "with the definitions alternating between two included files so that temporaries are defined on equal line numbers; every step "
           "of the validated run (see C09) is checked: equal n => equal name within the step, different n => different names, the name is "
           "no identifier of the input or of a macro body, the reference lexer does not tokenise it as one identifier, and no other step "
@@ -415,7 +418,7 @@ PROPS["C12"] = dict(
 
 PROPS["C18"] = dict(
     harness="p_det",
-    phases=dict(quick=[rc(6, 150), rc(6, 150, flavour="tsan", seed_offset=100)],
+    phases=dict(quick=[rc(8, 50), rc(8, 50, flavour="tsan", seed_offset=100)],
                 thorough=[rc(8, 4000), rc(8, 4000, flavour="tsan", seed_offset=100)]),
     rule=("cases: sequences of 2-5 compile inputs (valid programs with and without user macros/temporaries/loops, 2-edit mutants, token "
           "soup; 1-3 files) and 1-8 threads. Oracle: canonical serialisation of everything compile() returns (instructions field-wise, "
@@ -425,7 +428,7 @@ PROPS["C18"] = dict(
           "per input, the single-threaded serialisation - run under ASan and under ThreadSanitizer, any report is a violation; (c) a VM "
           "stepped in lock step with a second VM on the same program (stepping, breakpoints, reset) behaves as alone. Non-trivial: >=2 "
           "threads with >=2 distinct inputs one of which uses macros; or >=3 inputs single-threaded; distinct by hash of the sequence."),
-    min_nontrivial=dict(quick=300, thorough=8000),
+    min_nontrivial=dict(quick=200, thorough=8000),
     assumptions=["ThreadSanitizer detects races between accesses that both execute, independent of timing; thread schedules are not enumerated",
                  "inputs whose macro expansion grows explosively (known finding F11) are excluded by the same pre-screen as C02"],
     technique="property-based testing: rapidcheck-generated compile/run sequences; differential against a fresh process and against single-threaded results, under ASan and TSan",
